@@ -393,7 +393,7 @@ func pkgShortName(cfg *Config, mods []Module, pkgPath string) string {
 	// read the package clause from any go file of the package
 	m := moduleOf(mods, pkgPath)
 	if m == nil {
-		return pkgShort(pkgPath)
+		return lastElem(pkgPath)
 	}
 	rel := strings.TrimPrefix(strings.TrimPrefix(pkgPath, m.Path), "/")
 	dir := filepath.Join(m.Dir, rel)
@@ -415,7 +415,14 @@ func pkgShortName(cfg *Config, mods []Module, pkgPath string) string {
 			}
 		}
 	}
-	return pkgShort(pkgPath)
+	return lastElem(pkgPath)
+}
+
+func lastElem(p string) string {
+	if i := strings.LastIndex(p, "/"); i >= 0 {
+		return p[i+1:]
+	}
+	return p
 }
 
 func safeVerify(P *Program, fn *ssa.Function, c *Contract, cf *ContractFile, inst string, vo verifyOpts) (fr *FuncResult) {
